@@ -591,8 +591,11 @@ impl Space for C13 {
         }
         out
     }
-    fn time_limit(&self, _idx: u64) -> std::time::Duration {
-        std::time::Duration::from_secs(60)
+    fn time_limit(&self, idx: u64) -> std::time::Duration {
+        // the watchdog, not an oracle: loading and then querying a 10000-long alias chain or cycle is
+        // quadratic (every canonicalisation walks the chain) and takes 40-80 s on an idle machine
+        let name = self.fams.name(self.fams.locate(idx).0);
+        std::time::Duration::from_secs(if name.starts_with("dependency c") { 900 } else { 60 })
     }
     fn abnormal(&self, idx: u64, kind: Abnormal, info: &str) -> Option<Violation> {
         Some(Violation {
